@@ -39,6 +39,9 @@ pub struct OracleState {
 	pub adds_delivered: BTreeMap<([u8; 32], usize), Vec<(u64, u32)>>,
 	/// (payment hash, sending node) -> (amount, cltv) of every update_add_htlc emitted
 	pub adds_emitted: BTreeMap<([u8; 32], usize), Vec<(u64, u32)>>,
+	/// channel index -> (sending node, cltv) of every update_add_htlc emitted on that channel (a
+	/// forwarder may use any channel to the next peer, not the one the route names)
+	pub adds_by_chan: BTreeMap<usize, Vec<(usize, u32)>>,
 	/// C07-5: (node, sorted inputs) -> (absolute fee, feerate per kw, txid) of the last broadcast with
 	/// exactly these inputs; cleared for a node when it restarts and for everyone on a reorg
 	pub last_fee: BTreeMap<(usize, Vec<bitcoin::OutPoint>), (u64, u64, bitcoin::Txid)>,
@@ -69,6 +72,9 @@ impl World {
 			let first = !self.oracle.adds_emitted.contains_key(&(a.payment_hash.0, from));
 			self.onion_oracle_on_add(from, to, a.payment_hash.0, a.amount_msat, a.cltv_expiry, first);
 			self.oracle.adds_emitted.entry((a.payment_hash.0, from)).or_default().push((a.amount_msat, a.cltv_expiry));
+			if let Some(ci) = self.chans.iter().position(|c| c.channel_id == a.channel_id) {
+				self.oracle.adds_by_chan.entry(ci).or_default().push((from, a.cltv_expiry));
+			}
 			// C08-1: a node never forwards an HTLC that is about to expire (the sender of a payment
 			// may offer whatever it likes; retransmissions after a reconnect are not new decisions)
 			let origin = self.pays.iter().any(|p| p.hash == a.payment_hash && p.from == from);
